@@ -11,21 +11,24 @@ Emit == /\ (Len(table) >= 1) => PrintT(<<"SCN", "table", ToJson(table)>>)
 \* three-entry tables only with one class list (keeps the number of tables in the 10^3 range)
 Prune == Len(table) = 3 => (table[1].cls = table[2].cls /\ table[2].cls = table[3].cls)
 
-GenPrefixes == {Pfx(4, 0, 0), Pfx(4, 0, 1), Pfx(4, 32, 1), Pfx(4, 16, 2), Pfx(4, 20, 4), Pfx(4, 23, 4),
+Def4 == Pfx(4, 0, 0 - 26)       \* 0.0.0.0/0 (W = 6)
+Def6 == Pfx(6, 0, 0 - 122)      \* ::/0
+GenPrefixes == {Def4, Pfx(4, 0, 0), Pfx(4, 0, 1), Pfx(4, 32, 1), Pfx(4, 16, 2), Pfx(4, 20, 4), Pfx(4, 23, 4),
                 Pfx(4, 21, 6), Pfx(6, 0, 1)}
 GenPrefixesQuick == GenPrefixes \ {Pfx(4, 16, 2)}
-GenPrefixesThorough == GenPrefixes \cup {Pfx(4, 16, 3), Pfx(6, 21, 6), Pfx(6, 0, 0)}
+GenPrefixesThorough == GenPrefixes \cup {Def6, Pfx(4, 16, 3), Pfx(6, 21, 6), Pfx(6, 0, 0)}
 GenClassLists == {<<Cl("true", 1)>>, <<Cl("tos", 0), Cl("true", 1)>>, <<Cl("tos", 1), Cl("false", 1)>>,
                   <<Cl("false", 1), Cl("true", 0)>>}
 GenPkts == {P(4, d, t, 0) : d \in 0..63, t \in {0, 184}} \cup
            {P(4, 21, 0, 1), P(4, 21, 184, 2), P(4, 0, 0, 2), P(4, 40, 184, 1)} \cup
-           {P(6, d, t, 0) : d \in {0, 21, 31, 32, 63}, t \in {0, 184}}
+           {P(6, d, t, 0) : d \in {0, 21, 31, 32, 63}, t \in {0, 184}} \cup
+           {P(4, 0 - 1, 0, 0), P(4, 0 - 1, 184, 0), P(4, 0 - 2, 0, 1), P(6, 0 - 1, 0, 0)}   \* outside the embedded space
 
 \* policies (W = 4)
 A1 == 1
 A2 == 2
 GenFrom == {AnyIA, IAM(1, 0, 0), IAM(0, A1, 0), IAM(1, A1, 1)}
-GenNets == {<<<<Pfx(4, 0, 1)>>, 0>>, <<<<Pfx(4, 4, 2), Pfx(4, 12, 3)>>, 0>>, <<<<Pfx(4, 4, 2)>>, 1>>,
+GenNets == {<<<<Pfx(4, 0, 0 - 28)>>, 0>>, <<<<Pfx(4, 0, 1)>>, 0>>, <<<<Pfx(4, 4, 2), Pfx(4, 12, 3)>>, 0>>, <<<<Pfx(4, 4, 2)>>, 1>>,
             <<<<Pfx(4, 5, 4), Pfx(6, 0, 1)>>, 0>>}
 GenRules == {Rule(a, f, AnyIA, n[1], n[2]) : a \in {"accept", "reject", "advertise"}, f \in GenFrom, n \in GenNets}
             \cup {Rule(a, AnyIA, t, <<Pfx(4, 8, 1)>>, 0) : a \in {"accept", "reject", "advertise"},
